@@ -4967,6 +4967,26 @@ fn extract_uint_from_type2(t2: &Type2) -> Option<usize> {
   }
 }
 
+/// Verification hooks: expose private helpers of the CBOR validator to the
+/// out-of-tree replay harness. Compiled only with `--cfg anweiss_cddl_verif`.
+#[cfg(anweiss_cddl_verif)]
+#[doc(hidden)]
+pub mod verif_hooks {
+  pub fn augment_single_entry_assignment(
+    claim_slot: usize,
+    compatibility: &[Vec<bool>],
+    visited_entries: &mut [bool],
+    entry_owners: &mut [Option<usize>],
+  ) -> bool {
+    super::CBORValidator::augment_single_entry_assignment(
+      claim_slot,
+      compatibility,
+      visited_entries,
+      entry_owners,
+    )
+  }
+}
+
 #[cfg(test)]
 #[cfg(not(target_arch = "wasm32"))]
 mod tests {
